@@ -9,6 +9,7 @@ package main
 // observes; verdicts are formed by the orchestrator against the specification.
 
 import (
+	"bytes"
 	"encoding/json"
 	"fmt"
 	"io"
@@ -123,6 +124,9 @@ func lgModule(cs lgCase) string {
 	b.WriteString(cs.Pre)
 	b.WriteString("@ POST /run {\n")
 	for _, v := range cs.Vars {
+		if v.N == "input" {
+			continue // the request body, not a query parameter
+		}
 		t := map[string]string{"int": "int", "str": "str", "bool": "bool", "float": "float"}[v.V["k"].(string)]
 		fmt.Fprintf(&b, "  ? %s: %s\n", v.N, t)
 	}
@@ -135,6 +139,10 @@ func lgQuery(cs lgCase) (string, map[string]interface{}) {
 	q := url.Values{}
 	vals := map[string]interface{}{}
 	for _, v := range cs.Vars {
+		if v.N == "input" {
+			vals["input"] = lgUntag(v.V)
+			continue
+		}
 		switch v.V["k"] {
 		case "int":
 			n := int64(v.V["v"].(float64))
@@ -162,6 +170,40 @@ func lgQuery(cs lgCase) (string, map[string]interface{}) {
 		}
 	}
 	return q.Encode(), vals
+}
+
+// lgUntag: a tagged value of the specification as the Go value a JSON body of that shape decodes to
+func lgUntag(v map[string]interface{}) interface{} {
+	switch v["k"] {
+	case "null":
+		return nil
+	case "int":
+		return v["v"].(float64) // numbers of a JSON body are floats
+	case "float":
+		return v["q"].(float64) / 4
+	case "arr":
+		out := []interface{}{}
+		for _, e := range v["e"].([]interface{}) {
+			out = append(out, lgUntag(e.(map[string]interface{})))
+		}
+		return out
+	case "obj":
+		out := map[string]interface{}{}
+		for _, f := range v["f"].([]interface{}) {
+			fm := f.(map[string]interface{})
+			out[fm["name"].(string)] = lgUntag(fm["v"].(map[string]interface{}))
+		}
+		return out
+	}
+	return v["v"]
+}
+
+// lgCopy: a fresh copy of a JSON-shaped value (each run gets its own request body)
+func lgCopy(x interface{}) interface{} {
+	b, _ := json.Marshal(x)
+	var out interface{}
+	json.Unmarshal(b, &out)
+	return out
 }
 
 // guarded runs f under recover and a watchdog
@@ -274,12 +316,21 @@ func lgRunVM(route *ast.Route, level compiler.OptimizationLevel, qvals map[strin
 		m.SetMaxSteps(3_000_000)
 	}
 	qobj := map[string]vm.Value{}
+	var body interface{}
 	for k, v := range qvals {
+		if k == "input" {
+			body = lgCopy(v)
+			continue
+		}
 		qobj[k] = interfaceToValue(v)
 		m.SetLocal(k, interfaceToValue(v))
 	}
 	m.SetLocal("query", vm.ObjectValue{Val: qobj})
-	m.SetLocal("input", vm.NullValue{})
+	if body != nil {
+		m.SetLocal("input", interfaceToValue(body))
+	} else {
+		m.SetLocal("input", vm.NullValue{})
+	}
 	m.SetLocal("headers", vm.ObjectValue{Val: map[string]vm.Value{}})
 	res, xerr := m.Execute(bc)
 	if xerr != nil {
@@ -329,7 +380,11 @@ func TestVerifLangRun(t *testing.T) {
 				if qs != "" {
 					path += "?" + qs
 				}
-				resp, err := ip.ExecuteRoute(route, &interpreter.Request{Path: path, Method: "POST", Params: map[string]string{}, Headers: map[string]string{}})
+				req := &interpreter.Request{Path: path, Method: "POST", Params: map[string]string{}, Headers: map[string]string{}}
+				if in, ok := qvals["input"]; ok {
+					req.Body = lgCopy(in)
+				}
+				resp, err := ip.ExecuteRoute(route, req)
 				if err != nil {
 					return lgObs{Kind: "error", Msg: err.Error()}
 				}
@@ -400,7 +455,13 @@ func TestVerifLangRun(t *testing.T) {
 				target += "?" + qs
 			}
 			res := lgGuard(wd, func() lgObs {
-				r := srv.do("POST", target, nil, nil, "")
+				var hdr map[string][]string
+				var payload io.Reader
+				if in, ok := qvals["input"]; ok {
+					b, _ := json.Marshal(in)
+					hdr, payload = map[string][]string{"Content-Type": {"application/json"}}, bytes.NewReader(b)
+				}
+				r := srv.do("POST", target, hdr, payload, "")
 				if r.Panic != nil {
 					return lgObs{Kind: "panic", Msg: fmt.Sprint(r.Panic)}
 				}
